@@ -151,7 +151,13 @@ def run(spec, ctx):
             hx.hexdump(d)
         return
     if spec["mode"] == "layouts":
-        for bpl, bpc in spec["layouts"]:
+        # the dump of given bytes depends on the bytes and the setting only, not on which settings were used before in
+        # the process: a neighbour of the default layout (same line width, other chunk size) goes first, the default
+        # layout - the one with a parse-back oracle - is called again after every other layout, and the order is drawn
+        lays = list(spec["layouts"])
+        rng.shuffle(lays)
+        first = (16, rng.choice([5, 5, 5, 3, 6, 8, 16, 255]))
+        for bpl, bpc in [first] + lays:
             ctx.see("layout", "%dx%d" % (bpl, bpc))
             ctx.count("layouts.checked")
             for n in {0, 1, bpl - 1, bpl, bpl + 1, 2 * bpl + max(1, bpc - 1), rng.randrange(0, 4 * bpl + 2)}:
@@ -161,6 +167,9 @@ def run(spec, ctx):
                 ctx.current = {"len": n, "layout": [bpl, bpc]}
                 ctx.case(d + bytes([bpl & 255, bpc & 255]), n >= 1)
                 hx.hexdump(d, bpl, bpc)
+            dd = gen_bytes(rng, rng.choice([1, 15, 16, 17, 40, 64]))
+            ctx.count("layouts.default_after_other")
+            hx.hexdump(dd) if rng.random() < 0.5 else hx.hexdump(dd, 16, 4)
         return
     if spec["mode"] == "formats":
         from io_drawer.dump import HEX_DUMP_LINE_FORMATS
